@@ -48,6 +48,22 @@ def one(case):
         ratio = t.factor / val
         tl.append({"idx": [int(x) for x in idx], "ratio": float(ratio), "sym": list(t.split_symbol), "dofs": [int(d) for d in t.dofs],
                    "qn": [[int(y) for y in q] for q in t.qn_list]})
+    # closure under the adjoint: (p,q) <-> (q,p), (p,q,r,s) <-> (r,s,p,q) with the same integral value and transposed operator
+    by_idx = {tuple(int(x) for x in pr[:-1]): (pr[-1], t) for t, pr in zip(flat, pairs)}
+    adj_bad, adj_ex, adj_n = 0, None, 0
+    for idx, (val, t) in by_idx.items():
+        if len(idx) == 2 and idx[0] > idx[1] or len(idx) == 4 and idx[:2] > idx[2:]:
+            continue
+        a = (idx[1], idx[0]) if len(idx) == 2 else (idx[2], idx[3], idx[0], idx[1])
+        adj_n += 1
+        pa = by_idx.get(a)
+        ok = pa is not None and pa[0] == val
+        if ok and 2 * nsp <= 8:
+            ok = np.array_equal(L.term_dense(pa[1], 2 * nsp), L.term_dense(t, 2 * nsp).T)
+        if not ok:
+            adj_bad += 1
+            adj_ex = adj_ex or {"idx": idx, "adjoint_idx": a, "value": val, "partner_value": None if pa is None else pa[0]}
+    out["adj_bad"], out["adj_example"], out["adj_checked"] = adj_bad, adj_ex, adj_n
     out["charged_terms"] = int(sum(1 for t in flat if np.any(np.asarray(t.qn) != 0)))
     out["nterms"] = len(flat)
     out["len_match"] = len(flat) == len(pairs)
